@@ -16,11 +16,13 @@ import (
 	"verif/mc/harness"
 	"verif/mc/hsink"
 	"verif/mc/mcrt"
+	"verif/props"
 	"verif/ref"
 
 	"github.com/goblimey/go-ntrip/jsonconfig"
 	rtcmh "github.com/goblimey/go-ntrip/rtcm/handler"
 	"github.com/goblimey/go-ntrip/rtcm/pushback"
+	"github.com/goblimey/go-ntrip/rtcm/utils"
 )
 
 var t0 = time.Date(2023, 5, 10, 12, 0, 0, 0, time.UTC)
@@ -29,9 +31,110 @@ func TestMain(m *testing.M) {
 	switch os.Getenv("MC_PROP") {
 	case "C11":
 		harness.Run(&harness.Prop{ID: "C11", Scenarios: scenariosC11, QuickBudget: 60 * time.Second, ThoroughBudget: 10 * time.Minute})
+	case "C17":
+		harness.Run(&harness.Prop{ID: "C17",
+			Pre: func(r *harness.EvRun) {
+				props.Registry["C17"](r)
+				r.Rule += c17AppRule
+				r.Assumptions = append(r.Assumptions, "application level: 'yyyy-mm-dd' means midnight UTC on that day, as the program's documentation says; a constellation is judged only when that instant lies in the constellation week of the data")
+			},
+			Scenarios: scenariosC17, QuickBudget: 30 * time.Second, ThoroughBudget: 60 * time.Second})
 	default:
 		os.Exit(m.Run())
 	}
+}
+
+const c17AppRule = "; plus, at application level (displayrtcm3 in-package harness, default schedule): the start time is produced by the program's own getTime from its command-line argument and handed to the shipped HandleMessages with a stream of four header-only MSM7 frames (GPS, GLONASS, Galileo, BeiDou): host time zone {UTC, +1, +5:30, +9, +13, -5, -11} x observation instant {Sunday 00:01, Wednesday 12:00, Saturday 20:00 UTC} x argument {each of the 7 dates of the week as yyyy-mm-dd; the same instants and two others in RFC3339 form with Z, +05:00 and -08:00 offsets}; every 'Time' line of a constellation whose precondition holds must show the true observation time"
+
+// scenariosC17: "displaying a recorded file with any date of that week" through
+// the program's own argument parsing, on hosts in different time zones.
+func scenariosC17(tier string) []*mcrt.Scenario {
+	var scs []*mcrt.Scenario
+	zones := []struct {
+		name string
+		off  int
+	}{{"UTC", 0}, {"UTC+1", 3600}, {"UTC+5:30", 5*3600 + 1800}, {"UTC+9", 9 * 3600}, {"UTC+13", 13 * 3600}, {"UTC-5", -5 * 3600}, {"UTC-11", -11 * 3600}}
+	sunday := time.Date(2023, 5, 7, 0, 0, 0, 0, time.UTC)
+	obs := []time.Time{sunday.Add(time.Minute), sunday.Add(3*24*time.Hour + 12*time.Hour), sunday.Add(6*24*time.Hour + 20*time.Hour)}
+	type argT struct {
+		text string
+		at   time.Time // the instant the documentation gives it
+	}
+	var args []argT
+	for d := 0; d < 7; d++ {
+		day := sunday.AddDate(0, 0, d)
+		args = append(args, argT{day.Format("2006-01-02"), day})
+	}
+	for _, t := range []time.Time{sunday, sunday.Add(3*24*time.Hour + 15*time.Hour), sunday.Add(6*24*time.Hour + 20*time.Hour + 30*time.Minute)} {
+		for _, z := range []*time.Location{time.UTC, time.FixedZone("", 5*3600), time.FixedZone("", -8*3600)} {
+			args = append(args, argT{t.In(z).Format(time.RFC3339), t})
+		}
+	}
+	cons := []ref.Constellation{ref.GPS, ref.Glonass, ref.Galileo, ref.Beidou}
+	for _, z := range zones {
+		for _, u := range obs {
+			for _, a := range args {
+				z, u, a := z, u, a
+				var stream []byte
+				for _, c := range cons {
+					stream = append(stream, ref.HeaderOnlyMSM(c.MSMType(true), c.Timestamp(u))...)
+				}
+				scs = append(scs, &mcrt.Scenario{
+					Name:        fmt.Sprintf("displayrtcm3 date-argument zone=%s arg=%s observation=%s", z.name, a.text, u.Format("Mon15:04")),
+					DefaultOnly: true, Horizon: 200000,
+					Body: func(x *mcrt.X) {
+						o := &obsT{out: &hsink.Sink{Name: "stdout"}}
+						x.Data = o
+						saved := time.Local
+						time.Local = time.FixedZone(z.name, z.off)
+						defer func() { time.Local = saved }()
+						start, err := getTime(a.text)
+						if err != nil {
+							o.atReturn = []byte("getTime: " + err.Error())
+							return
+						}
+						HandleMessages(start, &hsink.ChunkReader{Data: stream, Reset: true, Sizes: []int{0}}, o.out, &jsonconfig.Config{})
+						o.atReturn = append([]byte{}, o.out.Buf...)
+						o.returned = true
+					},
+					Check: func(x *mcrt.X) *mcrt.Failure {
+						o := x.Data.(*obsT)
+						if len(x.Panics) > 0 {
+							p := x.Panics[0]
+							return &mcrt.Failure{Kind: "panic in " + p.Thread + ": " + first(p.Value) + " @" + p.Site, Detail: p.Stack}
+						}
+						if !o.returned {
+							return &mcrt.Failure{Kind: "date-argument-not-accepted-or-no-return", Detail: string(o.atReturn) + " end=" + x.End}
+						}
+						var times []string
+						for _, l := range strings.Split(string(o.atReturn), "\n") {
+							if strings.HasPrefix(l, "Time ") {
+								times = append(times, strings.TrimPrefix(l, "Time "))
+							}
+						}
+						if len(times) != len(cons) {
+							return &mcrt.Failure{Kind: "time-lines-missing", Detail: fmt.Sprintf("%d 'Time' lines for %d MSM messages", len(times), len(cons))}
+						}
+						judged := 0
+						for i, c := range cons {
+							if !c.WeekStart(a.at).Equal(c.WeekStart(u)) {
+								continue // the argument is not in this constellation's week of the data
+							}
+							judged++
+							want := u.Format(utils.DateLayout)
+							if times[i] != want {
+								return &mcrt.Failure{Kind: "reported-time-wrong-for-a-date-of-the-same-week constellation=" + ref.ConstNames[c],
+									Detail: fmt.Sprintf("argument %q on a host in zone %s: reported %q, true %q", a.text, z.name, times[i], want)}
+							}
+						}
+						harness.Outcome(fmt.Sprintf("date argument accepted, %d constellations judged", judged))
+						return nil
+					},
+				})
+			}
+		}
+	}
+	return scs
 }
 
 const heading = "RTCM data\n\nNote: times are in UTC.  RINEX format uses GPS time, which is currently (Jan 2021)\n18 seconds ahead of UTC\n\n"
